@@ -275,6 +275,32 @@ func (r *Report) finish(evdir string, writeEvidence bool) int {
 			extList = append(extList, fmt.Sprintf("%s x%d", k, ext[k]))
 		}
 		sort.Strings(knownHits)
+		// every assumption the proofs of this property's units used: free
+		// preconditions, assumptions at program points, assumed callee
+		// preconditions, assumed postconditions, assumed purity/effects of dynamic
+		// calls, units whose own run-time safety is assumed, and the contracts used
+		// at call sites whose bodies are not verified (trusted)
+		unitAssumptions := uniqueSorted(assumedAll)
+		var safetyAssumed []string
+		for _, u := range r.Results {
+			n := u.Func
+			if i := strings.Index(n, "["); i > 0 && strings.HasSuffix(n, "]") && !strings.Contains(n, "[\"") {
+				n = n[:i]
+			}
+			if fi := r.p.ByName[n]; fi != nil && fi.Flag("assume-safety") {
+				safetyAssumed = append(safetyAssumed, n)
+			}
+		}
+		safetyAssumed = uniqueSorted(safetyAssumed)
+		trusted := r.trustedContracts()
+		allAssumptions := append(append([]string{}, trustedBase...), unmechanised[r.Prop]...)
+		allAssumptions = append(allAssumptions, unitAssumptions...)
+		for _, t := range trusted {
+			allAssumptions = append(allAssumptions, "trusted contract (used at call sites, body not verified): "+t)
+		}
+		for _, t := range safetyAssumed {
+			allAssumptions = append(allAssumptions, "assume-safety (nil/index/cast/division obligations of the unit's own body are assumed, only its functional clauses are proved): "+t)
+		}
 		ev := map[string]any{
 			"property_id": r.Prop,
 			"tier":        r.Tier,
@@ -300,9 +326,12 @@ func (r *Report) finish(evdir string, writeEvidence bool) int {
 				"unmechanised_lemmas":                   unmechanised[r.Prop],
 				"bounded_checks":                        []string{},
 				"runtime_sweep":                         sweep,
+				"unit_assumptions":                      unitAssumptions,
+				"trusted_contracts":                     trusted,
+				"units_with_assumed_safety":             safetyAssumed,
 				"explanation":                           "weakest-precondition style VCs generated by hvc from the current /repo tree (contracts in zz_contracts_verif.go), one SMT query per obligation",
 			},
-			"assumptions": append(append([]string{}, trustedBase...), unmechanised[r.Prop]...),
+			"assumptions": allAssumptions,
 		}
 		os.MkdirAll(evdir, 0o755)
 		data, _ := json.MarshalIndent(ev, "", " ")
@@ -344,5 +373,18 @@ func (r *Report) trustedContracts() []string {
 			out = append(out, name)
 		}
 	}
+	return out
+}
+
+func uniqueSorted(in []string) []string {
+	seen := map[string]bool{}
+	var out []string
+	for _, x := range in {
+		if !seen[x] {
+			seen[x] = true
+			out = append(out, x)
+		}
+	}
+	sort.Strings(out)
 	return out
 }
